@@ -214,7 +214,13 @@ class SNum:
     __radd__ = __add__
     def __sub__(s, o): return s._bin(o, lambda a, b: a - b)
     def __rsub__(s, o): return s._bin(o, lambda a, b: a - b, swap=True)
-    def __mul__(s, o): return s._bin(o, lambda a, b: a * b)
+    def __mul__(s, o):
+        r = s._bin(o, lambda a, b: a * b)
+        if r is NotImplemented:
+            from engine import vtime
+            if isinstance(o, vtime.real_timedelta):
+                return vtime.make_timedelta(vtime.td_us(o) * s)
+        return r
     __rmul__ = __mul__
     def __neg__(s): return SNum(z3.simplify(-s.e))
     def __pos__(s): return s
